@@ -337,6 +337,36 @@ def ob_ops(Ne, nPg, dim, seed):
                 same(g_, w_, f"ufunc {label} output {k_}", rank=r)
                 if not isinstance(g_, FeArray):
                     fail(f"ufunc {label}: output {k_} is not a FeArray", rank=r)
+    # a plain array on the LEFT of @ is a constant tensor too (constant-field order of the matrix product)
+    for r1, r2 in [(2, 2), (2, 1), (1, 2), (1, 1)]:
+        b = _rand(rng, (Ne, nPg) + _tensor_shapes(dim, r2))
+        ca = _rand(rng, _tensor_shapes(dim, r1))
+        fb = FeArray.asfearray(b)
+        try:
+            got = ca @ fb
+        except Exception as ex:
+            fail(f"matmul constant(rank {r1}) @ field(rank {r2}): raises {type(ex).__name__}: {ex}", ranks=[r1, r2])
+        n += 1
+        same(got, loop(lambda x, y: x @ y, ("const", ca), ("fe", b)), f"matmul constant(rank {r1}) @ field(rank {r2})", ranks=[r1, r2])
+        if not isinstance(got, FeArray):
+            fail(f"matmul constant(rank {r1}) @ field(rank {r2}): result is not a FeArray", ranks=[r1, r2])
+    # reductions that are not in numpy's short list of reducers: the type follows the same rule (FeArray iff the (Ne, nPg) axes survive)
+    for r in (1, 2):
+        a = _rand(rng, (Ne, nPg) + _tensor_shapes(dim, r))
+        fa = FeArray.asfearray(a)
+        nd = a.ndim
+        extra = [("np.add.reduce", lambda x, ax: np.add.reduce(x, axis=ax)), ("np.multiply.reduce", lambda x, ax: np.multiply.reduce(x, axis=ax)), ("np.maximum.reduce", lambda x, ax: np.maximum.reduce(x, axis=ax)),
+                 ("np.nansum", lambda x, ax: np.nansum(x, axis=ax)), ("np.nanmax", lambda x, ax: np.nanmax(x, axis=ax)), ("np.nanmean", lambda x, ax: np.nanmean(x, axis=ax)),
+                 ("np.ptp", lambda x, ax: np.ptp(x, axis=ax)), ("np.count_nonzero", lambda x, ax: np.count_nonzero(x, axis=ax)), ("np.linalg.norm", lambda x, ax: np.linalg.norm(x, axis=ax))]
+        for label, call in extra:
+            for ax in range(-nd, nd):
+                want = call(a, ax)
+                got = call(fa, ax)
+                n += 1
+                same(got, want, f"reduction {label} axis={ax}", rank=r, axis=ax)
+                keeps = (ax % nd) >= 2 and np.ndim(want) >= 2
+                if isinstance(got, FeArray) != keeps:
+                    fail(f"reduction {label} axis={ax} on rank {r}: result type {type(got).__name__}, FeArray expected iff the (Ne,nPg) axes survive ({keeps})", rank=r, axis=ax)
     # products: @, dot, ddot, T
     for r1, r2 in [(1, 1), (2, 2), (1, 2), (2, 1), (2, 4), (4, 2), (4, 1), (3, 1), (1, 3), (3, 2)]:
         a = _rand(rng, (Ne, nPg) + _tensor_shapes(dim, r1))
@@ -506,7 +536,7 @@ def ob_ops(Ne, nPg, dim, seed):
         import operator
         nz = np.asarray(val) + 3.0                      # Field values shifted away from zero for the divisions
         for opn, op in (("+", operator.add), ("-", operator.sub), ("*", operator.mul), ("/", operator.truediv)):
-            for other, oname in ((fv + 5, "FeArray"), (2.5, "python scalar"), (np.float64(1.5), "numpy scalar")):
+            for other, oname in ((fv + 5, "FeArray"), (2.5, "python scalar"), (np.float64(1.5), "numpy scalar"), (np.asarray(fv)[0, 0] * 0 + 3.0 if np.ndim(val) > 2 else np.float64(3.0), "plain constant array")):
                 o = np.asarray(other)
                 base = np.asarray(val)
                 if opn == "/":
